@@ -41,6 +41,12 @@ class Probe:
         self.pulls += 1
         return next(self.it)
 
+    def gen(self):
+        """The same source as a generator (what finditer hands to Query), so close() exists."""
+        for m in self.it:
+            self.pulls += 1
+            yield m
+
 
 def counts_for(n):
     return sorted({-1, 0, 1, 2, n - 1, n, n + 1} - {-2})
@@ -59,15 +65,30 @@ def model_step(L, op, n):
     raise ValueError(op)
 
 
-def run_chain(matches, chain, terminal, env, order_rng=None):
+def run_chain(matches, chain, terminal, env, order_rng=None, source="iterator"):
     """Execute chain on the real Query and on the model; return None or a diff string."""
     import jsonpath
 
     probe = Probe(matches)
-    q = jsonpath.Query(probe, env)
+    q = jsonpath.Query(probe.gen() if source == "generator" else probe, env)
     L = list(matches)
     pending = []  # (Query, expected list, label)
     for op, n in chain:
+        if op == "pull":
+            # consume n matches by iterating the query itself, then abandon that iterator
+            k = max(n, 0)
+            it = iter(q)
+            got = []
+            for _ in range(k):
+                m = next(it, None)
+                if m is None:
+                    break
+                got.append(m)
+            del it
+            if len(got) != len(L[:k]) or any(a is not b for a, b in zip(got, L[:k])):
+                return "iterating the query pulled %r, expected %r" % ([m.obj for m in got], [m.obj for m in L[:k]]), probe.pulls
+            L = L[k:]
+            continue
         if op == "take":
             if n < 0:
                 try:
@@ -191,6 +212,10 @@ def run(spec, ctx):
                     diff, p = run_chain(ms, chain, term, env)
                     pulls += p
                     total += 1
+                    if not diff and length == 1:
+                        # the same chain after pulling 1 match by plain iteration from a generator source
+                        diff, p = run_chain(ms, (("pull", 1),) + tuple(chain), term, env, source="generator")
+                        total += 1
                     if diff:
                         ctx.violation("chain-differs-from-list-model:%s" % "+".join(sorted({op for op, _ in chain})), {"n": n, "chain": [list(x) for x in chain], "terminal": term}, {"n": n, "chain": [list(x) for x in chain], "terminal": term, "diff": diff})
         if spec["first"] == CHAINABLE[0]:
@@ -216,9 +241,17 @@ def run(spec, ctx):
                 c = r.choice([-1, 0, 1, 2, 3, n // 2, n - 1, n, n + 1, n + 3])
                 if op == "tee":
                     c = r.choice([-1, 0, 1, 2, 3])
+                if r.random() < 0.12:
+                    op, c = "pull", r.choice([0, 1, 2, n // 2])
                 chain.append((op, max(c, -1)))
             term = r.choice(TERMINALS)
-            diff, p = run_chain(ms, chain, term, env, order_rng=r)
+            if r.random() < 0.1:
+                # the same chain on a Query obtained from the public entry points
+                data = [{"id": i} for i in range(n)]
+                q0 = r.choice([lambda: jsonpath.query("$[*]", data), lambda: env.query("$[*]", data), lambda: jsonpath.compile("$[*]").query(data)])()
+                ms = list(q0)
+                ctx.count("chains_on_entry_point_queries")
+            diff, p = run_chain(ms, chain, term, env, order_rng=r, source=r.choice(["iterator", "generator", "generator"]))
             ctx.evaluation()
             ctx.case(h(n, chain, term))
             ctx.count("H8_source_pulls", p)
@@ -244,7 +277,7 @@ def replay(case, ctx):
     ms = matches_for(case["n"])
     ctx.evaluation()
     for seed in range(6):
-        diff, _ = run_chain(ms, [tuple(x) for x in case["chain"]], case["terminal"], jsonpath.DEFAULT_ENV, order_rng=random.Random(seed) if seed else None)
+        diff, _ = run_chain(ms, [tuple(x) for x in case["chain"]], case["terminal"], jsonpath.DEFAULT_ENV, order_rng=random.Random(seed) if seed else None, source="generator" if seed % 2 else "iterator")
         if diff:
             ctx.violation("chain-differs-from-list-model:replay", case, {"diff": diff})
             return
